@@ -283,7 +283,7 @@ func main() {
 	outdir := os.Args[1]
 	repl := map[string]string{}
 	for _, p := range os.Args[2:] {
-		ctxPoints := strings.Contains(p, "/repo/")
+		ctxPoints := !strings.Contains(p, "/pkg/mod/") // repository files (not the module cache): context samples become scheduling points
 		if strings.HasPrefix(p, "static:") { // static:<target>=<replacement>
 			kv := strings.SplitN(strings.TrimPrefix(p, "static:"), "=", 2)
 			repl[kv[0]] = kv[1]
